@@ -4252,6 +4252,7 @@ class Or(ParseExpression):
         if self.exprs:
             self._may_return_empty = any(e.mayReturnEmpty for e in self.exprs)
             self.skipWhitespace = all(e.skipWhitespace for e in self.exprs)
+            self.saveAsList = any(e.saveAsList for e in self.exprs)
         else:
             self._may_return_empty = True
 
@@ -4410,6 +4411,7 @@ class MatchFirst(ParseExpression):
         if self.exprs:
             self._may_return_empty = any(e.mayReturnEmpty for e in self.exprs)
             self.skipWhitespace = all(e.skipWhitespace for e in self.exprs)
+            self.saveAsList = any(e.saveAsList for e in self.exprs)
         else:
             self._may_return_empty = True
 
